@@ -1621,8 +1621,10 @@ func (sc *serverConn) processFrame(f Frame) error {
 						Val: s.Val,
 					})
 				}
+				md.HTTP2Frames.Lock()
 				md.HTTP2Frames.Settings = settings
 				verifhook.At("http2.capture", md, "settings")
+				md.HTTP2Frames.Unlock()
 			}
 		}
 		return sc.processSettings(f)
@@ -1632,6 +1634,7 @@ func (sc *serverConn) processFrame(f Frame) error {
 			for _, h := range f.Fields {
 				headers = append(headers, metadata.HeaderField(h))
 			}
+			md.HTTP2Frames.Lock()
 			md.HTTP2Frames.Headers = headers
 			verifhook.At("http2.capture", md, "headers")
 			if f.HasPriority() {
@@ -1644,14 +1647,17 @@ func (sc *serverConn) processFrame(f Frame) error {
 					})
 				verifhook.At("http2.capture", md, "headers.priority")
 			}
+			md.HTTP2Frames.Unlock()
 		}
 		return sc.processHeaders(f)
 	case *WindowUpdateFrame:
 		if md, ok := metadata.FromContext(sc.baseCtx); ok {
+			md.HTTP2Frames.Lock()
 			if md.HTTP2Frames.WindowUpdateIncrement == 0 {
 				md.HTTP2Frames.WindowUpdateIncrement = f.Increment
 			}
 			verifhook.At("http2.capture", md, "window_update")
+			md.HTTP2Frames.Unlock()
 		}
 		return sc.processWindowUpdate(f)
 	case *PingFrame:
@@ -1662,6 +1668,7 @@ func (sc *serverConn) processFrame(f Frame) error {
 		return sc.processResetStream(f)
 	case *PriorityFrame:
 		if md, ok := metadata.FromContext(sc.baseCtx); ok {
+			md.HTTP2Frames.Lock()
 			md.HTTP2Frames.Priorities = append(md.HTTP2Frames.Priorities, metadata.Priority{
 				StreamId:  f.StreamID,
 				StreamDep: f.PriorityParam.StreamDep,
@@ -1669,6 +1676,7 @@ func (sc *serverConn) processFrame(f Frame) error {
 				Weight:    f.PriorityParam.Weight,
 			})
 			verifhook.At("http2.capture", md, "priority")
+			md.HTTP2Frames.Unlock()
 		}
 		return sc.processPriority(f)
 	case *GoAwayFrame:
